@@ -80,6 +80,7 @@ class Sim(object):
         self.preemptions = 0
         self.line_stall = None       # (probability at a pre-emption point, max seconds): stall the thread there instead of yielding
         self.stalls = 0
+        self.stalls_armed = True
         self.deep_stalls = None      # {function name: [[line offset, seconds, hits left], ...]}
         self.focus_stall = None      # (function name(s), probability per line, max seconds[, line offset in the function, max hits])
         self.focus_hits = 0
@@ -395,7 +396,12 @@ class Sim(object):
         if t is None or t.real_ident != _thread.get_ident() or t.no_preempt:
             return
         self.line_count += 1
-        ds = self.deep_stalls
+        if not self.stalls_armed:
+            # (worlds hold thread stalls back until their set-up phase - the initial connect - is over)
+            ds = fs = None
+        else:
+            ds = self.deep_stalls
+            fs = self.focus_stall
         if ds:
             lst = ds.get(code.co_name)
             if lst:
@@ -414,7 +420,6 @@ class Sim(object):
                             self.fault_counter('thread_stall')
                         self.block([], e[1], 'line-stall')
                         return
-        fs = self.focus_stall
         if fs and (code.co_name == fs[0] or (type(fs[0]) is not str and code.co_name in fs[0])) and \
                 (len(fs) < 4 or (lineno - code.co_firstlineno == fs[3] and self.focus_hits < fs[4])) and self.line_rng.random() < fs[1]:
             # focused stall: this run singles out one function; a thread executing it is descheduled at some of its lines
@@ -434,7 +439,7 @@ class Sim(object):
             hit = self.line_rng.random() < self.line_p
         if hit:
             self.preemptions += 1
-            st = self.line_stall
+            st = self.line_stall if self.stalls_armed else None
             if st and self.line_rng.random() < st[0]:
                 # fault: the thread is descheduled at this line for a while (slow CPU, GC pause, page fault) - virtual time
                 # passes, responses arrive and timers fire while it sits between two lines, possibly holding locks
